@@ -96,11 +96,11 @@ func filterFn(kind string) func(int) bool {
 // Reference model (independent of the implementation).
 
 type reg struct {
-	slot                   int
-	ctx, once, async, seq  bool
-	filter                 string
-	fired                  bool // once handler already claimed
-	inflight               bool // claimed, publish not yet finished
+	slot                  int
+	ctx, once, async, seq bool
+	filter                string
+	fired                 bool // once handler already claimed
+	inflight              bool // claimed, publish not yet finished
 }
 
 type queryRes struct {
@@ -110,11 +110,11 @@ type queryRes struct {
 }
 
 type expectation struct {
-	sync    []Rec
-	async   []Rec
-	query   map[string]queryRes // op path -> expected
-	skip    map[string]bool     // op path -> guard said skip
-	counts  map[int]int         // global type index -> count after the op (top level)
+	sync   []Rec
+	async  []Rec
+	query  map[string]queryRes // op path -> expected
+	skip   map[string]bool     // op path -> guard said skip
+	counts map[int]int         // global type index -> count after the op (top level)
 }
 
 type model struct {
